@@ -113,7 +113,7 @@ func TestGovcEmbedReplay(t *testing.T) {
 		fmt.Printf("GOVC-INFO embed cases: must=%d may=%d forbidden=%d, cases with a placeholder in the result=%d\n", byExpect[govcC19Must], byExpect[govcC19May], byExpect[govcC19Forbid], withPlaceholder)
 		fmt.Printf("GOVC-INFO embed degenerate-URL cases: %d (of which %d carry no id at all), with a placeholder in the result=%d\n", degEvals, degNoID, degWithPlaceholder)
 		fmt.Printf("GOVC-CASES evaluations=%d distinct_nontrivial=%d rule=%s\n", evals, nontrivial,
-			"(a) 36 hosts (8 allow-listed, 3 unusual spellings, 25 look-alike/userinfo/path/query/fragment tricks) x {https,http,//} x {iframe with the natural path shape, object data= and object param movie (YouTube-like hosts), blockquote.twitter-tweet (Twitter-like hosts)}, plus for https: iframe x the other 5 path shapes and iframe x {data-src, data-lazy-src, data-src same service} holding the opposite kind of URL; (b) degenerate URLs on 6 allow-listed hosts x {https,http,//} x {iframe without and with data-tweet-id, object data= / param movie (YouTube), blockquote.twitter-tweet (Twitter)} x URL remainders {empty, /, //, ///, only a query, /+query, only a fragment, /+fragment, blank segment, the service keyword (embed, v, video, status) without id in 4-5 spellings} where no id exists, and {id/, id//, id/blank, id/?query, id#fragment, doubled slashes} where it does; (c) query parameters on 6 allow-listed hosts x {https, // for two hosts} x {iframe, object data= / param movie (YouTube), blockquote.twitter-tweet (Twitter)} x path shapes with the id in the path {/embed/ID, /v/ID, /v/ID& (old spelling), /embed/ID/, /video/ID, /video/ID/, /user/status/ID} x 26 query strings (v, vi, id, video_id, list, playlist, si, h with id-like or numeric values, alone / before / after other parameters, twice, upper case, empty, with fragment, double-escaped ampersand, t, start/end, rel/autoplay/feature, jsapi/origin, many at once) where data-id must stay the path id, and path shapes without an id {/watch, /watch/, /embed, /embed/, /, /embed/videoseries, /video} x 8 of the query strings (3 hosts, https) where a placeholder is optional but its data-id must be an id occurring in the URL and not the page name; (d) attributes other than the source: 27 sources (22 not allow-listed: foreign hosts with ad / tweet-like / status-like paths, look-alike twitter / youtube / vimeo hosts, vimeo.com without player., user-info and query tricks, empty src, no src, srcdoc only, javascript: alert / void / with //allow-listed-host/ as a comment for the three services, about:blank, data:, relative, fragment; 5 allow-listed: youtube, youtube-nocookie, player.vimeo, platform.twitter, twitter status) x 17 attribute bundles (none; class twitter-tweet-rendered / twitter-tweet with and without data-tweet-id, id twitter-widget-0, title / name of the Twitter widget; class youtube-player, id, title, allow list, data-youtube-id / data-video-id / data-id / data-type; class vimeo, title, data-vimeo-id, name; class embed-placeholder with data-type / data-id; lazy-loading data-src / data-lazy-src pointing to an allow-listed URL; odd advert classes; all at once) x {iframe; object data= and param movie for 11 sources x 10 bundles}, page URL https://www.example.com/...: a not allow-listed source never yields a placeholder, a frame element or the attribute id in the output; an allow-listed source yields the placeholder of its own service with the id of the URL whatever the attributes say (twitter iframe: demanded with data-tweet-id, optional without); (e) 8 frame/plug-in elements (foreign, look-alike, src-less, javascript:, YouTube iframes, object, embed, iframe inside a paragraph) nested at 3 positions inside an embedded tweet blockquote: none of them may reach the distilled HTML; unique id per case, one frame between long paragraphs; non-trivial = both neighbouring paragraphs retained in Result.Text")
+			"(a) 36 hosts (8 allow-listed, 3 unusual spellings, 25 look-alike/userinfo/path/query/fragment tricks) x {https,http,//} x {iframe with the natural path shape, object data= and object param movie (YouTube-like hosts), blockquote.twitter-tweet (Twitter-like hosts)}, plus for https: iframe x the other 5 path shapes and iframe x {data-src, data-lazy-src, data-src same service} holding the opposite kind of URL; (b) degenerate URLs on 6 allow-listed hosts x {https,http,//} x {iframe without and with data-tweet-id, object data= / param movie (YouTube), blockquote.twitter-tweet (Twitter)} x URL remainders {empty, /, //, ///, only a query, /+query, only a fragment, /+fragment, blank segment, the service keyword (embed, v, video, status) without id in 4-5 spellings} where no id exists, and {id/, id//, id/blank, id/?query, id#fragment, doubled slashes} where it does; (c) query parameters on 6 allow-listed hosts x {https, // for two hosts} x {iframe, object data= / param movie (YouTube), blockquote.twitter-tweet (Twitter)} x path shapes with the id in the path {/embed/ID, /v/ID, /v/ID& (old spelling), /embed/ID/, /video/ID, /video/ID/, /user/status/ID} x 26 query strings (v, vi, id, video_id, list, playlist, si, h with id-like or numeric values, alone / before / after other parameters, twice, upper case, empty, with fragment, double-escaped ampersand, t, start/end, rel/autoplay/feature, jsapi/origin, many at once) where data-id must stay the path id, and path shapes without an id {/watch, /watch/, /embed, /embed/, /, /embed/videoseries, /video} x 8 of the query strings (3 hosts, https) where a placeholder is optional but its data-id must be an id occurring in the URL and not the page name; (d) attributes other than the source: 27 sources (22 not allow-listed: foreign hosts with ad / tweet-like / status-like paths, look-alike twitter / youtube / vimeo hosts, vimeo.com without player., user-info and query tricks, empty src, no src, srcdoc only, javascript: alert / void / with //allow-listed-host/ as a comment for the three services, about:blank, data:, relative, fragment; 5 allow-listed: youtube, youtube-nocookie, player.vimeo, platform.twitter, twitter status) x 17 attribute bundles (none; class twitter-tweet-rendered / twitter-tweet with and without data-tweet-id, id twitter-widget-0, title / name of the Twitter widget; class youtube-player, id, title, allow list, data-youtube-id / data-video-id / data-id / data-type; class vimeo, title, data-vimeo-id, name; class embed-placeholder with data-type / data-id; lazy-loading data-src / data-lazy-src pointing to an allow-listed URL; odd advert classes; all at once) x {iframe; object data= and param movie for 11 sources x 10 bundles}, page URL https://www.example.com/...: a not allow-listed source never yields a placeholder, a frame element or the attribute id in the output; an allow-listed source yields the placeholder of its own service with the id of the URL whatever the attributes say (twitter iframe: demanded with data-tweet-id, optional without); (f) 5 kinds of links inside the tweet text (quoted tweet, photo, hashtag and mention, t.co, numeric profile) before the permalink: the id is the permalink's; (e) 8 frame/plug-in elements (foreign, look-alike, src-less, javascript:, YouTube iframes, object, embed, iframe inside a paragraph) nested at 3 positions inside an embedded tweet blockquote: none of them may reach the distilled HTML; unique id per case, one frame between long paragraphs; non-trivial = both neighbouring paragraphs retained in Result.Text")
 	}()
 
 	schemes := []struct{ key, prefix string }{{"https", "https://"}, {"http", "http://"}, {"rel", "//"}}
@@ -926,6 +926,47 @@ func TestGovcEmbedReplay(t *testing.T) {
 				if govcC19Attr(ph, "data-type") == "twitter" && govcC19Attr(ph, "data-id") != id {
 					t.Errorf("GOVC-FAIL %s/id :: embed placeholder has data-id %q, the tweet id is %q: %s", key, govcC19Attr(ph, "data-id"), id, frame)
 				}
+			}
+		}
+	}
+
+	// ---- (f) LINKS INSIDE THE TWEET TEXT (appended) ----
+	// The permalink of a not yet rendered tweet is its LAST anchor (Twitter's embed markup); hashtags, mentions, quoted
+	// tweets and photo links inside the tweet text come before it. The placeholder's id is the id of the permalink.
+	inText := []struct{ key, html string }{
+		{"quoted-tweet", `<a href="https://twitter.com/otheruser/status/1000000000000000001">twitter.com/otheruser/status/1000…</a>`},
+		{"photo-link", `<a href="https://twitter.com/someuser/status/1000000000000000002/photo/1">pic.twitter.com/abc</a>`},
+		{"hashtag-and-mention", `<a href="https://twitter.com/hashtag/launch?src=hash">#launch</a> <a href="https://twitter.com/nasa">@nasa</a>`},
+		{"tco-link", `<a href="https://t.co/AbCdEf1234">example.com/story</a>`},
+		{"numeric-profile", `<a href="https://twitter.com/12345">@12345</a>`},
+	}
+	for ti, it := range inText {
+		id := fmt.Sprintf("88%05d", ti+1)
+		frame := `<blockquote class="twitter-tweet"><p lang="en" dir="ltr">Announcement of the day ` + it.html + `</p>&mdash; Some User (@someuser) <a href="https://twitter.com/someuser/status/` + id + `?ref_src=twsrc%5Etfw">June 1, 2020</a></blockquote>`
+		key := "tweet-text-links/" + it.key
+		src := `<html><head><title>Regional water supply report</title></head><body><div id="story">` +
+			govcC19Para("alphafirst") + govcC19Para("alphasecond") + frame + govcC19Para("omegafirst") + govcC19Para("omegasecond") +
+			`</div></body></html>`
+		res, err := ApplyForReader(strings.NewReader(src), nil)
+		evals++
+		if err != nil {
+			t.Errorf("GOVC-FAIL %s :: embed case returned error %v", key, err)
+			continue
+		}
+		retained := strings.Contains(res.Text, "alphasecond") && strings.Contains(res.Text, "omegafirst")
+		if retained {
+			nontrivial++
+		}
+		phs := dom.QuerySelectorAll(res.Node, "div.embed-placeholder")
+		if len(phs) == 0 && retained {
+			t.Errorf("GOVC-FAIL %s/missing :: embed: no placeholder for a tweet blockquote with a status permalink (neighbours retained): %s", key, frame)
+		}
+		for _, ph := range phs {
+			if got := govcC19Attr(ph, "data-id"); got != id {
+				t.Errorf("GOVC-FAIL %s/id :: embed placeholder has data-id %q, the id of the tweet's permalink is %q: %s", key, got, id, frame)
+			}
+			if got := govcC19Attr(ph, "data-type"); got != "twitter" {
+				t.Errorf("GOVC-FAIL %s/type :: embed placeholder has data-type %q: %s", key, got, frame)
 			}
 		}
 	}
